@@ -3,7 +3,8 @@
 Proof side: coq/C05_KVConc (thread-program model, linearizability for every schedule, sound history checker).
 Correspondence: free-running goroutine histories of the real code judged by the proved-sound Coq `lin_check`
 (and independently by a Go checker), plus lockstep scripts comparing every call result with the model.
-Round 2: large-value histories (torn values), shared batch objects (BatchModel.v), both also under the race detector."""
+Round 2: large-value histories (torn values), shared batch objects (BatchModel.v), both also under the race detector;
+views derived by free-running goroutines while their parents are busy; stores of >= 10 000 entries with invariant-maintaining writers."""
 from . import lib
 
 LEVEL = "proof"
@@ -22,17 +23,21 @@ def run(ctx):
         "the body of each syncedKVMap method is one atomic step taken while the model thread holds the map lock",
         "Go memory model / data-race freedom is not expressible in the model (race-detector build: quick tier runs the large-value and "
         "shared-batch families under it, thorough tier all streams)",
+        "view creation (WithRealm / WithExtendedRealm / Batched, Realm()) is a pure function of the realm in the model: a view is (object id of a fresh, "
+        "free RWMutex; realm; flushkv or not) and CWithRealm compiles to the closed test only. Tied to the code by the `derive` family: views "
+        "derived by free-running goroutines while other goroutines are inside operations on the parent and its siblings, every later call through "
+        "the derived view recorded on full key = prescribed realm ++ key and judged with the whole history (linearizability, Realm(), watchdog)",
         "shared batch object (Batch.v): Set/Delete/Cancel/Commit of mapdb's batchedMutations as programs over the batch's own mutex; the flushkv "
         "batch forwards to ONE underlying batch for its whole life; a Commit's store part is compile (CCommit w content)",
     ])
     if thorough:
         for k in range(5):
             ctx.seed += 1000
-            ctx.corr(hx, ["all", "--nlin", "600", "--nseq", "200", "--nstress", "20000"], cases_name="cases%d.v" % k)
+            ctx.corr(hx, ["all", "--nlin", "600", "--nseq", "200", "--nstress", "20000", "--nderive", "1500", "--nlarge", "30"], cases_name="cases%d.v" % k)
         ctx.seed -= 5000
         try:
             hxr = ctx.go_build("c05", race=True)
-            ctx.corr(hxr, ["all", "--nlin", "100", "--nseq", "20", "--nstress", "4000", "--biguse", "3"], cases_name="cases_race.v")
+            ctx.corr(hxr, ["all", "--nlin", "100", "--nseq", "20", "--nstress", "4000", "--biguse", "3", "--nderive", "150", "--nlarge", "4", "--nlargelin", "30"], cases_name="cases_race.v")
             ctx.assumptions.append("race-detector build of the harness ran the same histories without a report (a report aborts the harness)")
         except RuntimeError as ex:
             ctx.log("race build unavailable: %s" % ex)
@@ -43,7 +48,8 @@ def run(ctx):
         # lock boundary; a batch object shared by goroutines): ~2 s compile (cached), ~8 s run. A report makes the harness exit 66.
         try:
             hxr = ctx.go_build("c05", race=True)
-            ctx.corr(hxr, ["all", "--only", "big,sbatch", "--nbig", "60", "--biguse", "3", "--nsb", "1500", "--nsbdir", "60", "--nsbseq", "40"],
+            ctx.corr(hxr, ["all", "--only", "big,sbatch,derive,large", "--nbig", "60", "--biguse", "3", "--nsb", "1500", "--nsbdir", "60", "--nsbseq", "40",
+                           "--nderive", "40", "--nlarge", "2", "--largesnaps", "15", "--nlargelin", "0"],
                      cases_name="cases_race.v")
             ctx.assumptions.append("race-detector build ran the large-value and shared-batch families without a report (a report makes the harness "
                                    "exit with status 66 = harness-failure VIOLATION); the other streams run under it in the thorough tier only")
@@ -51,6 +57,13 @@ def run(ctx):
             ctx.log("race build unavailable: %s" % ex)
             ctx.assumptions.append("race-detector build not available on this machine: data-race freedom unchecked")
     ctx.assumptions += [
+        "view derivation is concurrent with operations on the parent/sibling views only as far as the scheduler made it so in the `derive` histories "
+        "(large values keep the parent's locks held while the derivations run; derivations/chains/flushkv parents are counted in stats extra.derive); "
+        "a derived view is used by the goroutine that derived it, not handed to others",
+        "large stores (10 000..25 000 entries over several realms): the oracle is the invariant kept by single writers of token rings (Set next, then Delete "
+        "current) and groups (Sets in order, then ONE DeletePrefix/Clear), the call-interval window from the writers' progress counters, the pairwise "
+        "order of all snapshots of a history and the unchanging filler; it follows from per-operation linearizability + one-instant iteration and does "
+        "not depend on timing. These histories are too long for lin_check: judged in Go only (the `large-lin` histories on the same kind of store go to Coq)",
         "atomicity of a batch Commit is per write (as the property says); a Commit or a flushkv call is a sequence of atomic operations sharing the call's interval",
         "a batch object may be shared by goroutines and reused after Commit/Cancel (the interface does not forbid it; mapdb and rocksdb batches "
         "carry their own mutex): judged as an object of its own (content read by a Commit at one instant of its interval) composed with the store; "
